@@ -27,6 +27,8 @@ def run(ctx, kinds=("sub", "elim"), p_constraints=0.6, nlang=None, ncase=None, p
             args = I.gen_args(rng, spec, s)
             one_case(ctx, spec, ops, s, args, li)
         stress_cases(ctx, li, spec, ops, ncase // 2)
+        if "sub" in kinds or "elim" in kinds:
+            interplay_cases(ctx, li, spec, ops, ncase // 2)
 
 
 def stress_cases(ctx, li, spec, ops, n):
@@ -84,6 +86,48 @@ def stress_cases(ctx, li, spec, ops, n):
             args.append((counter[0], a))
         one_case(ctx, spec, ops, s, args, li)
         ctx.count("stress_cases")
+
+
+def interplay_cases(ctx, li, spec, ops, n):
+    """bounded variables meeting other variables while constraints over both are pending: a constraint that bounds a variable at
+    once (`x << [A]`, `x <= A`) next to structural subtype / elimination constraints tying it to another variable or a wildcard
+    (`F(x) <= y`, `F(x) <= F(_)`, `x <= y`, `y << [F(x), A]`), in every order of creation"""
+    import itertools
+    rng = ctx.rng
+    bases = spec.bases()
+    comps = spec.compounds(builtin=False)
+    if not bases or not comps:
+        return
+    x, y = ('v', 0), ('v', 1)
+    for _ in range(n):
+        c = rng.choice(comps)
+        a, b = (rng.choice(bases), ()), (rng.choice(bases), ())
+
+        def F(t):
+            return (c, tuple(t if j == 0 else a for j in range(spec.arity(c))))
+        wild = [0]
+
+        def W():
+            wild[0] += 1
+            return ('w', None)
+        bounders = [('elim', x, [a]), ('sub', x, a, False), ('elim', x, [a, b]), ('sub', a, x, False)]
+        ties = [('sub', F(x), y, False), ('sub', F(x), F(W()), False), ('sub', x, y, False), ('sub', y, x, False),
+                ('elim', y, [F(x), b]), ('sub', F(y), F(x), False), ('elim', y, [x])]
+        cs = [rng.choice(bounders)] + rng.sample(ties, rng.randint(1, 2))
+        rng.shuffle(cs)
+        body = rng.choice([(G.FUN, (x, y)), (G.FUN, (x, x)), (G.FUN, (y, x)), (G.FUN, (x, (G.FUN, (y, F(x)))))])
+        counter = [0]
+        body2 = I.number_wildcards(body, 2, counter)
+        cs2 = []
+        for cst in cs:
+            if cst[0] == 'sub':
+                cs2.append(('sub', I.number_wildcards(cst[1], 2, counter), I.number_wildcards(cst[2], 2, counter), cst[3]))
+            else:
+                cs2.append(('elim', I.number_wildcards(cst[1], 2, counter), [I.number_wildcards(t, 2, counter) for t in cst[2]]))
+        s = {"nvars": 2, "nwild": counter[0], "body": body2, "constraints": cs2}
+        args = I.gen_args(rng, spec, s, p_valid=0.8)
+        one_case(ctx, spec, ops, s, args, li)
+        ctx.count("interplay_cases")
 
 
 def one_case(ctx, spec, ops, s, args, li=0):
